@@ -158,7 +158,7 @@ theorem rulesOfTm_ne_nil (doc : Doc) (tm : TriplesMap) : rulesOfTm doc tm ≠ []
 
 /-- the rewriting of one referencing rule, given the parent rule found -/
 def elimWith (r parent : Rule) : Rule :=
-  if r.logicalSourceValue = parent.logicalSourceValue && r.iterator = parent.iterator
+  if r.sourceName = parent.sourceName && r.logicalSourceValue = parent.logicalSourceValue && r.iterator = parent.iterator
       && r.objectJoin.all (fun cp => cp.1 = cp.2) && subjRefsAreJoinCols r parent then
     { r with objectMapType := parent.subjectMapType, objectMapValue := parent.subjectMapValue,
              objectTermtype := parent.subjectTermtype, objectJoin := [] }
@@ -175,10 +175,10 @@ theorem eliminateSelfJoin_plain {rules : List Rule} {r : Rule} (hpt : r.objectMa
   unfold eliminateSelfJoin
   simp only [hpt, ↓reduceIte]
 
-/-- the rewriting looks at the parent rule only through its logical source, iterator and subject map -/
+/-- the rewriting looks at the parent rule only through its section, logical source, iterator and subject map -/
 theorem elimWith_congr (r : Rule) {p p' : Rule} (h : SameHead p p') : elimWith r p = elimWith r p' := by
   unfold elimWith subjRefsAreJoinCols refsOfRule
-  simp only [h.lsv, h.iterator, h.smt, h.smv, h.stt, ↓reduceIte]
+  simp only [h.sourceName, h.lsv, h.iterator, h.smt, h.smv, h.stt, ↓reduceIte]
 
 theorem elimWith_head (r parent : Rule) : SameHead (elimWith r parent) r ∧ (elimWith r parent).asserted = r.asserted := by
   unfold elimWith
@@ -253,13 +253,14 @@ theorem SameHead.symm {a b : Rule} (h : SameHead a b) : SameHead b a :=
 /-! ## 3. well-formedness of documents with referencing object maps -/
 
 /-- a referencing object map of the fragment: at least one join condition; the parent triples map exists and is the only one with
-    that identifier; and — what `_remove_self_joins_no_condition` takes for granted when it compares `logical_source_value` only —
-    a parent with the same logical source value belongs to the same source section -/
-def RefOK (doc : Doc) (tm : TriplesMap) (pid : Str) (conds : List (Str × Str)) : Bool :=
+    that identifier.  (Until the repair of C07_F5 a third condition was needed — a parent with the same logical source value belongs
+    to the same source section —, which `_remove_self_joins_no_condition` took for granted when it compared `logical_source_value`
+    only; it now compares `source_name` too, see `Cw.same_lsv_other_source_*`.) -/
+def RefOK (doc : Doc) (_tm : TriplesMap) (pid : Str) (conds : List (Str × Str)) : Bool :=
   !conds.isEmpty &&
   match doc.tms.find? (fun t => t.id = pid) with
   | none => false
-  | some ptm => doc.tms.all (fun t => t.id != pid || t == ptm) && (tm.lsv != ptm.lsv || tm.sourceName == ptm.sourceName)
+  | some ptm => doc.tms.all (fun t => t.id != pid || t == ptm)
 
 /-- object maps of the fragment: term maps of the C01 fragment, or referencing object maps satisfying `RefOK` -/
 def ObjMapOK (doc : Doc) (tm : TriplesMap) : ObjMap → Bool
@@ -296,8 +297,8 @@ def NoPrefixClash (doc : Doc) : Bool :=
 def ParentTablesOK (senv : SEnv) (doc : Doc) : Bool :=
   forRefRules doc fun _ r ptm => Complete (parentCols ptm r) (senv.table ptm)
 
-theorem RefOK_spec {doc : Doc} {tm : TriplesMap} {pid : Str} {conds : List (Str × Str)} (h : RefOK doc tm pid conds = true) :
-    conds ≠ [] ∧ ∃ ptm, UniqueParent doc pid ptm ∧ (tm.lsv = ptm.lsv → tm.sourceName = ptm.sourceName) := by
+theorem RefOK_spec {doc : Doc} (tm : TriplesMap) {pid : Str} {conds : List (Str × Str)} (h : RefOK doc tm pid conds = true) :
+    conds ≠ [] ∧ ∃ ptm, UniqueParent doc pid ptm := by
   unfold RefOK at h
   simp only [Bool.and_eq_true, Bool.not_eq_true', List.isEmpty_eq_false_iff] at h
   refine ⟨h.1, ?_⟩
@@ -305,14 +306,11 @@ theorem RefOK_spec {doc : Doc} {tm : TriplesMap} {pid : Str} {conds : List (Str 
   split at h2
   · cases h2
   · rename_i ptm hf
-    simp only [Bool.and_eq_true, List.all_eq_true, Bool.or_eq_true, bne_iff_ne, ne_eq, beq_iff_eq] at h2
-    refine ⟨ptm, ⟨hf, fun t ht hid => ?_⟩, fun hl => ?_⟩
-    · rcases h2.1 t ht with h' | h'
-      · exact absurd hid h'
-      · exact h'
-    · rcases h2.2 with h' | h'
-      · exact absurd hl h'
-      · exact h'
+    simp only [List.all_eq_true, Bool.or_eq_true, bne_iff_ne, ne_eq, beq_iff_eq] at h2
+    refine ⟨ptm, ⟨hf, fun t ht hid => ?_⟩⟩
+    rcases h2 t ht with h' | h'
+    · exact absurd hid h'
+    · exact h'
 
 theorem forRefRules_spec {doc : Doc} {P : TriplesMap → Rule → TriplesMap → Bool} (h : forRefRules doc P = true)
     {tm : TriplesMap} (htm : tm ∈ doc.tms) {r : Rule} (hr : r ∈ rulesOfTm doc tm) (hpt : r.objectMapType = .parentTM)
@@ -396,7 +394,7 @@ theorem ref_combo_refines {env : Env} {senv : SEnv} (henv : EnvOK env senv) (hn 
         (eliminateSelfJoin (rules0 doc) (pomRule doc tm pm (.ref pid conds) (mapOf gm))) = .ok lines ∧
       ∀ line, line ∈ lines ↔ ∃ ρ ∈ senv.table tm, line ∈ stmtsFor senv doc tm ρ [gm] pm (.ref pid conds) := by
   obtain ⟨hs, hp, hg, hro⟩ := FragmentRefOK_combo hn hfrag htm hc
-  obtain ⟨hne, ptm, hU, hsrc⟩ := RefOK_spec hro
+  obtain ⟨hne, ptm, hU⟩ := RefOK_spec tm hro
   obtain ⟨hptm, hpid⟩ := hU.mem
   subst hpid
   have hps : SubjOK ptm.subject = true := FragmentRefOK_subj hfrag hptm
@@ -450,10 +448,10 @@ theorem ref_combo_refines {env : Env} {senv : SEnv} (henv : EnvOK env senv) (hn 
   have hso : SameOutcome (evalRule env (normalizeDoc doc) (eliminateSelfJoinG Gen.elimShape (normalizeDoc doc) r))
       (evalRule env (normalizeDoc doc) r) := by
     by_cases ht : elimTests Gen.elimShape r prule = true
-    · have ht' : elimTests ElimShape.repaired r prule = true := by rw [← C07_current_elim_shape]; exact ht
-      rw [elimTests_repaired] at ht'
+    · have ht' : elimTests ElimShape.current r prule = true := by rw [← C07_current_elim_shape]; exact ht
+      rw [elimTests_current] at ht'
       simp only [Bool.and_eq_true, decide_eq_true_eq] at ht'
-      obtain ⟨⟨⟨hlsv, _⟩, _⟩, hsr⟩ := ht'
+      obtain ⟨_, hsr⟩ := ht'
       have hjne : r.objectJoin ≠ [] := by rw [hoj]; exact hne
       -- the parent subject map is not a constant: it refers to the (at least one) join column
       have hnotc : prule.subjectMapType ≠ .constant := by
@@ -465,14 +463,6 @@ theorem ref_combo_refines {env : Env} {senv : SEnv} (henv : EnvOK env senv) (hn 
         have := hsr.2.2 cp.2 (by rw [hcons]; simp)
         simp [refsOfRule, hcst, refsOfMap] at this
       apply C07_elimination_current env (normalizeDoc doc) r prule hpt hfindN' hjne
-      · intro _
-        rw [htabr, table_of_head henv hhp]
-        have h1 : tm.lsv = ptm.lsv := by
-          have e1 : r.logicalSourceValue = tm.lsv := by rw [← hr]; rfl
-          rw [← e1, hlsv, hhp.lsv]; rfl
-        have h2 := hsrc h1
-        unfold SEnv.table
-        rw [h1, h2]
       · rw [← hr, refRuleOf_objectTermtype hU.1, hhp.stt]; rfl
       · simp [isAllConstant, eliminated, hnotc]
       · intro m hm
@@ -708,7 +698,8 @@ example : ∃ out, evalAll envNT (normalizeDoc doc) = .ok out ∧ ∀ line, line
 
 end Ex
 
-/-! ## 7. what the two extra conditions of `RefOK` exclude (counter-witnesses on the model) -/
+/-! ## 7. the repaired finding C07_F5 (old shape of the elimination test) and what the first condition of `RefOK` excludes
+(counter-witnesses on the model) -/
 
 namespace Cw
 
@@ -729,14 +720,15 @@ def tablesE : List ((Str × Str) × Table) := [(("A".toList, "t".toList), tA), (
 def senv : SEnv := { tables := tablesE }
 def env : Env := { cfg := { escapeChain := Gen.escapeChainTemplate }, tables := tablesE }
 
-/-- **Same logical source value, different source section** (last conjunct of `RefOK`).  The self-join elimination compares
-    `logical_source_value` and the iterator only (`_remove_self_joins_no_condition`; `Model.eliminateSelfJoin`), not the source
-    section: a join between two tables of the same name in two databases / directories is taken for a self-join and replaced by the
-    row itself.  Table `t` of `A` has keys `x`, `y`; table `t` of `B` has `x` only: the join has one pair, the engine yields two
-    statements.  (The real engine does the same: two configuration sections with their own SQLite `db_url`, `rr:tableName "t"` in
-    both, join on `k`: `materialize_set` returns `C/y p P/y` although `B.t` has no row `y`.) -/
+/-- **C07_F5 (counter-witness, shape of the elimination test before the repair): same logical source value, different source
+    section.**  Until the repair the self-join elimination compared `logical_source_value` and the iterator only
+    (`_remove_self_joins_no_condition`; `ElimShape.repaired` = the shape after the repair of C07_F1 only), not the source section: a
+    join between two tables of the same name in two databases / directories was taken for a self-join and replaced by the row
+    itself.  Table `t` of `A` has keys `x`, `y`; table `t` of `B` has `x` only: the join has one pair, the engine yielded two
+    statements.  (Reproduced on the real engine: two configuration sections with their own SQLite `db_url`, `rr:tableName "t"` in
+    both, join on `k`: `materialize_set` returned `C/y p P/y` although `B.t` has no row `y`.) -/
 theorem same_lsv_other_source_engine :
-    evalAll env (normalizeDoc (docOf [("k".toList, "k".toList)] "B")) = .ok
+    evalAll env (normalizeDocG ElimShape.repaired (docOf [("k".toList, "k".toList)] "B")) = .ok
       [ "<http://ex/C/x> <http://ex/p> <http://ex/P/x>".toList, "<http://ex/C/y> <http://ex/p> <http://ex/P/y>".toList ] := by
   decide +kernel
 
@@ -744,12 +736,29 @@ theorem same_lsv_other_source_spec :
     evalDoc senv (docOf [("k".toList, "k".toList)] "B") = [ "<http://ex/C/x> <http://ex/p> <http://ex/P/x>".toList ] := by
   decide +kernel
 
-/-- every other hypothesis of `C07_doc_refinement` holds for this document -/
+/-- every hypothesis of `C07_doc_refinement` holds for this document (before the repair `RefOK` had to exclude it) -/
 theorem same_lsv_other_source_rest :
     TablesOK senv (docOf [("k".toList, "k".toList)] "B") = true ∧ ParentTablesOK senv (docOf [("k".toList, "k".toList)] "B") = true ∧
     NoPrefixClash (docOf [("k".toList, "k".toList)] "B") = true ∧ NoF4 senv (docOf [("k".toList, "k".toList)] "B") = true ∧
-    FragmentRefOK senv (docOf [("k".toList, "k".toList)] "B") = false ∧ FragmentRefOK senv (docOf [("k".toList, "k".toList)] "A") = true := by
+    FragmentRefOK senv (docOf [("k".toList, "k".toList)] "B") = true ∧ FragmentRefOK senv (docOf [("k".toList, "k".toList)] "A") = true := by
   decide +kernel
+
+/-- **C07_F5 repaired**: with the test of the section (the shape the source has now, `Model.normalizeDoc`) the join between the two
+    sections stays a join and the engine yields exactly the statement of the generation rules -/
+theorem same_lsv_other_source_fixed :
+    evalAll env (normalizeDoc (docOf [("k".toList, "k".toList)] "B")) = .ok (evalDoc senv (docOf [("k".toList, "k".toList)] "B")) ∧
+    evalAll env (normalizeDocG ElimShape.current (docOf [("k".toList, "k".toList)] "B")) =
+      .ok (evalDoc senv (docOf [("k".toList, "k".toList)] "B")) ∧
+    (normalizeDoc (docOf [("k".toList, "k".toList)] "B")).any (fun r => r.objectMapType == .parentTM) = true ∧
+    -- … while the same join inside one section is still replaced by the row itself
+    (normalizeDoc (docOf [("k".toList, "k".toList)] "A")).all (fun r => r.objectMapType != .parentTM) = true := by
+  decide +kernel
+
+/-- … as an instance of the document-level theorem, which no longer excludes it -/
+example : ∃ out, evalAll env (normalizeDoc (docOf [("k".toList, "k".toList)] "B")) = .ok out ∧
+    ∀ line, line ∈ out ↔ line ∈ evalDoc senv (docOf [("k".toList, "k".toList)] "B") :=
+  C07_doc_refinement ⟨⟨rfl, rfl, fun _ _ => rfl, rfl⟩, rfl, rfl, rfl, rfl⟩ ⟨rfl, rfl⟩ _ same_lsv_other_source_rest.2.2.2.2.1
+    same_lsv_other_source_rest.1 same_lsv_other_source_rest.2.1 same_lsv_other_source_rest.2.2.1 same_lsv_other_source_rest.2.2.2.1
 
 /-- **No join condition** (first conjunct of `RefOK`).  R2RML evaluates a referencing object map without join condition on the row
     itself; `Spec.joinRows` without conditions is the cross product; the model's normaliser rewrites it to the row itself when the
